@@ -14,6 +14,8 @@ import (
 
 func init() {
 	register(&Property{ID: "C27", Run: runC27, Mutants: []Mutant{
+		{Name: "method sets sorted by a non-unique key", File: "internal/types/methodset.go", Old: "return list[i].obj.Id() < list[j].obj.Id()", New: "return list[i].obj.Name() < list[j].obj.Name()", Expect: "sort-key-unique :: internal/types.NewMethodSet"},
+		{Name: "embed lookup matches by suffix (several entries can match)", File: "internal/types/embed.go", Old: "if k == commentInfo.Embed {", New: "if k == commentInfo.Embed || strings.HasSuffix(k, commentInfo.Embed) {", Expect: "map-order :: (*internal/types.Checker).processGlobalEmbed: range f.EmbedMap"},
 		{Name: "package members compiled in map order (sort removed)", File: "internal/backends/compiler_wat/compile.go", Old: "sort.Strings(memnames)", New: "_ = memnames", Nth: 1, Expect: "map-order"},
 		{Name: "packages compiled in map order (sort removed)", File: "internal/backends/compiler_wat/compile.go", Old: "sort.Strings(pkgnames)", New: "_ = pkgnames", Expect: "map-order"},
 		{Name: "new order-dependent loop on the build path", File: "internal/backends/compiler_wat/compile.go", Old: "func (p *Compiler) Compile(prog *loader.Program) (output string, err error) {", New: "func (p *Compiler) Compile(prog *loader.Program) (output string, err error) {\n\tfor name := range prog.Pkgs {\n\t\toutput += name\n\t}", Expect: "map-order"},
@@ -165,8 +167,34 @@ func (mc *mapRangeClassifier) classify(rs *ast.RangeStmt, body *ast.BlockStmt) (
 	if deadIn(info, body, rs) {
 		return "dead", "the loop is unreachable (after an unconditional return / under a constant-false condition)"
 	}
+	// lookup of one key by iteration: `for k, v := range m { if k == X { …; break/return } }` with X loop-invariant.
+	// At most one key equals X, so whichever order the map is walked in, the same entry is found.
+	if kn := identName(rs.Key); kn != "" && kn != "_" && len(rs.Body.List) == 1 {
+		if ifs, ok := rs.Body.List[0].(*ast.IfStmt); ok && ifs.Else == nil && ifs.Init == nil {
+			if be, ok := ast.Unparen(ifs.Cond).(*ast.BinaryExpr); ok && be.Op == token.EQL {
+				var other ast.Expr
+				if identName(be.X) == kn {
+					other = be.Y
+				} else if identName(be.Y) == kn {
+					other = be.X
+				}
+				exits := false
+				if n := len(ifs.Body.List); n > 0 {
+					switch last := ifs.Body.List[n-1].(type) {
+					case *ast.ReturnStmt:
+						exits = true
+					case *ast.BranchStmt:
+						exits = last.Tok == token.BREAK
+					}
+				}
+				if other != nil && !mentionsAny(other, loopVars) && exits && mc.effectful(other) == "" {
+					return "key-lookup", "the loop looks up the single key equal to " + types.ExprString(other) + " and exits: at most one entry matches"
+				}
+			}
+		}
+	}
 	collected := map[string]bool{} // slices filled in map order (append or indexed fill)
-	derived := map[string]bool{}  // locals derived from the loop variables
+	derived := map[string]bool{}   // locals derived from the loop variables
 	for k := range loopVars {
 		derived[k] = true
 	}
@@ -540,6 +568,9 @@ func runC27(c *Ctx) {
 			}
 		default:
 			c.OK(rMap, s.key, loc, s.class+": "+s.why)
+			if s.class == "sorted" {
+				c27CheckSortKey(c, p, s.fn, s.rs, s.key, loc)
+			}
 		}
 	}
 	for k, v := range counts {
